@@ -38,7 +38,8 @@ from pymbolic.mapper.differentiator import DifferentiationMapper, differentiate
 from pbt import walk
 from pbt.dual import (DUAL_FUNCS, DUAL_MATH, HP, HP_FUNCS, HP_MATH, TRACE,
                       DomainSkip, Dual, HPUnsupported, split)
-from pbt.refsem import RefSkip, describe, exc_site, ref_eval
+from pbt.refsem import (RefError, RefEvaluator, RefSkip, _apply, _pow, describe,
+                        exc_site)
 from pbt.runner import Result
 from pbt.spec import HarnessError, build, build_shared, build_value, subspecs
 
@@ -260,22 +261,43 @@ def _exact(v):
     return isinstance(v, (int, Fraction))
 
 
-def _close(a, b):
+def _close(a, b, abs_tol=ABS):
     try:
         if isinstance(a, complex) or isinstance(b, complex):
             return False
         diff = abs(a - b)
         scale = max(abs(a), abs(b))
-        return bool(diff <= REL * scale + ABS)
+        return bool(diff <= REL * scale + abs_tol)
     except Exception:
         return False
+
+
+class _DiffRef(RefEvaluator):
+    """pbt.refsem plus the domain rule of the property: a power whose
+    exponent is not a constant (syntactically contains a variable) is a
+    differentiable function only on a positive base."""
+
+    def ev(self, e):
+        if type(e) is p.Power and walk.variables(e.exponent):
+            a, b = self.strict([e.base, e.exponent])
+            if not split(a)[0] > 0:
+                raise DomainSkip("nonpositive-base")
+            return _apply(_pow, a, b)
+        return RefEvaluator.ev(self, e)
+
+
+def _ref_eval(e, env):
+    try:
+        return ("val", _DiffRef(env).ev(e))
+    except RefError as err:
+        return ("err", err.errs)
 
 
 def _reference(e, var, pt, hp):
     """("val", value, derivative) or ("skip", reason)."""
     TRACE.reset()
     try:
-        r = ref_eval(e, _dual_env(pt, var, hp))
+        r = _ref_eval(e, _dual_env(pt, var, hp))
     except DomainSkip as s:
         return ("skip", f"domain:{s}")
     except HPUnsupported:
@@ -312,14 +334,17 @@ def _evaluate(dexpr, pt, hp):
         return ("exc", exc)
 
 
-def _judge_point(e, dexpr, var, pt):
-    """-> ("ok"|"ok-adjudicated"|"skip"|"mismatch"|"eval-error", detail)"""
+def _judge_point(e, dexpr, var, pt, strict=False):
+    """-> ("ok"|"ok-adjudicated"|"skip"|"mismatch"|"eval-error:<T>", detail)
+
+    strict (used only to localise a failure that is already established):
+    compare the 60-digit evaluations with the relative tolerance alone."""
     ref = _reference(e, var, pt, False)
     if ref[0] == "skip":
         return ("skip", ref[1])
     want = ref[2]
     got = _evaluate(dexpr, pt, False)
-    if got[0] == "val":
+    if got[0] == "val" and not strict:
         if _exact(got[1]) and _exact(want):
             if got[1] == want:
                 return ("ok", "exact")
@@ -340,7 +365,7 @@ def _judge_point(e, dexpr, var, pt):
                 f"evaluating the derivative raised {type(exc).__name__}: {exc}; "
                 f"the input is differentiable there, dual-number derivative "
                 f"{describe(want)}")
-    if _close(got_hp[1], ref_hp[2]):
+    if _close(got_hp[1], ref_hp[2], ABS if not strict else 0):
         return ("ok-adjudicated", "")
     shown = got[1] if got[0] == "val" else got_hp[1]
     return ("mismatch", f"derivative evaluates to {describe(shown)}, dual-number "
@@ -367,7 +392,7 @@ def _localise(e, var, allow, pt, depth=0):
                 continue
             try:
                 dc = differentiate(c, var, allowed_nonsmoothness=allow or "none")
-                verdict = _judge_point(c, dc, var, pt)[0]
+                verdict = _judge_point(c, dc, var, pt, strict=True)[0]
             except RecursionError:
                 raise
             except Exception:
@@ -543,7 +568,23 @@ def _has_log_of_int_constant(spec):
     return False
 
 
+def _has_power_with_cse_constant_exponent(spec):
+    """A Power whose exponent contains no variable but a CommonSubexpression."""
+    for s in subspecs(spec.get("expr")):
+        if s[0] == "Power" and len(s) == 3:
+            inner = subspecs(s[2])
+            if any(t[0] == "CommonSubexpression" for t in inner) and not any(
+                    t[0] in ("Var", "Subscript") for t in inner):
+                return True
+    return False
+
+
 KNOWN = {
+    # the derivative of CSE(<constant>) is CSE(0), which is truthy: the power
+    # rule misses its zero-derivative short cut and emits log(base)
+    "F-C10-cse-const": lambda sub, spec, fail: (
+        fail.kind.startswith("derivative-eval-error:")
+        and _has_power_with_cse_constant_exponent(spec)),
     # copysign(u, v) with u depending on the variable is differentiated to 0
     "F24": lambda sub, spec, fail: (
         fail.kind == "derivative-mismatch:call:copysign"
